@@ -31,7 +31,7 @@ META = dict(
     "through pairing.restore_accessories_state -> restart -> pairing constructor, compared field by field (types, ids, perms, "
     "formats, values, ranges, links, c#, s#, broadcast key); (3) cache: every crash state of a cache save, every prefix of small "
     "valid cache files and a 0xFF / NUL / quote corruption (and NUL tail) at every position must leave the constructor "
-    "returning an empty (or the still-parsable) cache and start-up working Into every post-crash directory a complete save of the old set, the new set and the empty set is performed by the real code and must read back exactly. Also: one accessory under several aliases; configuration changes announced to a connected pairing (IP, CoAP; well spaced and overlapping) and what a restart reads; BLE write-through (every cache write against a fresh serialisation of what the pairing holds). Also pairings closed / shut down (not removed) before the save.",
+    "returning an empty (or the still-parsable) cache and start-up working Into every post-crash directory a complete save of the old set, the new set and the empty set is performed by the real code and must read back exactly. Also: one accessory under several aliases; configuration changes announced to a connected pairing (IP, CoAP; well spaced and overlapping) and what a restart reads; BLE write-through (every cache write against a fresh serialisation of what the pairing holds). Also pairings closed / shut down (not removed) before the save. Also: what a cache save stored is in the file when the call returns; last known values of unreachable characteristics survive a cache write and a restart.",
     note="the crash model is the classic one (no reordering between files beyond rename-before-data, no torn sectors); file "
     "system errors (ENOSPC, EACCES) are not enumerated; cache JSON that parses but has the wrong shape is out of scope "
     "(DESIGN §7); fields the model never parses (valid-values-range, maxLen, maxDataLen, ev) are not compared",
